@@ -391,11 +391,11 @@ def run_job(job):
 def make_jobs(tier, seed):
     rng = random.Random(160000 + seed)
     jobs = []
-    for i in range(32 if tier == 'quick' else 400):
+    for i in range(32 if tier == 'quick' else 1200):
         jobs.append({'kind': 'A', 'seed': rng.randrange(1 << 30), 'n': 60, 'i': i})
-    for i in range(16 if tier == 'quick' else 200):
+    for i in range(16 if tier == 'quick' else 600):
         jobs.append({'kind': 'B', 'seed': rng.randrange(1 << 30), 'n': 60, 'i': i})
-    nC = 64 if tier == 'quick' else 1400
+    nC = 64 if tier == 'quick' else 3000
     for i in range(nC):
         spot = i % 2 == 1
         nsym = 2 if i % 4 in (1, 2) else 1
